@@ -2,8 +2,8 @@ package gbnrun
 
 import (
 	"context"
+	"strings"
 	"sync"
-	"testing/synctest"
 	"time"
 
 	"github.com/lightninglabs/lightning-node-connect/gbn"
@@ -66,6 +66,7 @@ func (r *Run) execute() *Run {
 	}
 	r.Client, r.Server = c, sr.c
 	conns := map[string]*gbn.GoBackNConn{"c": c, "s": sr.c}
+	r.conns = conns
 	r.Rec.Emit("hsDone")
 	r.Net.SetDecider(cfg.Decide)
 
@@ -117,12 +118,18 @@ func (r *Run) execute() *Run {
 			}()
 		}
 		want := cfg.Msgs[1-i]
-		if want > 0 {
+		if want > 0 || cfg.RecvForever {
 			wg.Add(1)
 			go func() {
 				defer wg.Done()
-				for k := 1; k <= want; k++ {
+				for k := 1; k <= want || cfg.RecvForever; k++ {
+					r.mu.Lock()
+					r.rcalls[i]++
+					r.mu.Unlock()
 					b, err := conn.Recv()
+					r.mu.Lock()
+					r.rrets[i]++
+					r.mu.Unlock()
 					m := -1
 					if err == nil {
 						m = PayloadID(b)
@@ -168,7 +175,7 @@ func (r *Run) execute() *Run {
 		timedOut = true
 	}
 	// Let outstanding acknowledgements settle.
-	synctest.Wait()
+	r.Quiesce()
 	r.mu.Lock()
 	dl := r.Delivered
 	r.mu.Unlock()
@@ -183,26 +190,57 @@ func (r *Run) execute() *Run {
 			cfg.Msgs[1-i], "timedOut", to, "base", int(b), "top",
 			int(t), "size", int(sz), "pend", r.Net.Pending(ep))
 	}
-	if !cfg.NoClose {
+	if cfg.CloseScript != nil {
+		cfg.CloseScript(r)
+	} else if !cfg.NoClose {
 		var cw sync.WaitGroup
 		for _, ep := range []string{"c", "s"} {
 			ep := ep
 			cw.Add(1)
 			go func() {
 				defer cw.Done()
-				r.Rec.Emit("closeCall", "ep", ep)
-				err := conns[ep].Close()
-				r.Rec.Emit("closeRet", "ep", ep, "err", errStr(err))
+				r.Close(ep, "end")
 			}()
 		}
 		cw.Wait()
-		<-done
+	}
+	if cfg.CloseScript != nil || !cfg.NoClose {
+		stuck := 0
+		select {
+		case <-done:
+		case <-time.After(5 * time.Minute):
+			stuck = 1
+		}
 		cancel()
-		synctest.Wait()
+		r.Quiesce()
 		r.Leaked = Goroutines("lightning-node-connect/gbn")
+		names := []string{}
+		for _, g := range r.Leaked {
+			names = append(names, leakName(g))
+		}
+		sb0, rb0 := r.Blocked("c")
+		sb1, rb1 := r.Blocked("s")
+		r.Rec.Emit("inventory", "leaked", len(r.Leaked), "names", names,
+			"stuck", stuck, "blocked",
+			b2i(sb0)+b2i(rb0)+b2i(sb1)+b2i(rb1))
 		for _, ep := range []string{"c", "s"} {
 			conns[ep].VerifStopPongTicker()
 		}
 	}
 	return r
+}
+
+// leakName extracts the innermost gbn function of a goroutine stack.
+func leakName(stack string) string {
+	for _, ln := range strings.Split(stack, "\n") {
+		if i := strings.Index(ln, "lightning-node-connect/gbn."); i >= 0 &&
+			!strings.HasPrefix(ln, "\t") {
+			f := ln[i+len("lightning-node-connect/gbn."):]
+			if j := strings.LastIndex(f, "("); j > 0 {
+				f = f[:j]
+			}
+			return f
+		}
+	}
+	return "?"
 }
